@@ -49,7 +49,8 @@ KeysClass(i) == IF i > Len(keys) THEN "" ELSE (IF i > 1 THEN "," ELSE "") \o key
 Scenario == [prop |-> "C05", class |-> (IF ws = 0 THEN "" ELSE "rnd/") \o "keys=" \o KeysClass(1) \o "/" \o sel, world |-> WKey, sel |-> sel,
              keys |-> [i \in 1 .. Len(keys) |-> [col |-> keys[i].col, desc |-> (keys[i].dir = "desc")]],
              formula |-> IF wh THEN [f |-> "atom", a |-> WhereAtom] ELSE [f |-> "atom", a |-> A1("size", "gte", IntL(0), "")],
-             env |-> [tz |-> "UTC", cwd |-> 0],
+             \* (date keys are sorted under a clock that says 29 February: the comparison must not depend on today's date)
+             env |-> [tz |-> "UTC", cwd |-> 0, fake_epoch |-> IF keys[1].col = "modified" THEN 1456747200 ELSE 0 - 1],
              runs |-> << [tag |-> "plain", ncols |-> NCols,
                           argv |-> << "select " \o SelectText \o " from '.'" \o WhereText \o " into list" >>],
                          [tag |-> "ord", ncols |-> NCols,
